@@ -149,8 +149,8 @@ T.update({
           "systematic for all two-statement pairs) are validated by TLC, which computes the set of serial outcomes itself.",
           "TLC model checking of TSA.tla + TLAPS proof for any number of threads + TLC trace validation (TSATrace.tla) with serializability computed in TLA+"),
   "C28": ("other", "4 C28, 7",
-          "A grammar of 105 statement forms (reads in expressions and all six comparisons, augmented assignments to other variables and to the attribute "
-          "for 12 operators with spacing variants, assignments, right-hand sides that call a helper which itself updates the attribute, the _lock form) is executed on real objects; TLC evaluates on each recorded result that no "
+          "A grammar of 110 statement forms (reads in expressions and all six comparisons, augmented assignments to other variables and to the attribute "
+          "for 12 operators with spacing variants, assignments, right-hand sides that call a helper which itself updates the attribute, updates of an item of a container the attribute holds, the _lock form) is executed on real objects; TLC evaluates on each recorded result that no "
           "lock is held, nothing was raised and values equal those of plain attributes.",
           "grammar enumeration executed on the real descriptor, verdicts by TLC (TSATrace.tla)"),
   "C29": ("model_checking", "4 C29",
